@@ -90,7 +90,7 @@ func hasDoneArm(s *ssa.Select) (int, ssa.Value) {
 // findProxyIn: the function of iobroker with a select arm receiving from
 // Broker.ich.
 func findProxyIn(p *Prog) (*ssa.Function, *ssa.Select, int) {
-	ich := p.Field(iobPkg, "Broker", "ich")
+	ich := brokerChan(p, "string")
 	if nil == ich {
 		return nil, nil, -1
 	}
@@ -164,7 +164,7 @@ func chanFieldOps(p *Prog, f *types.Var) []chanOp {
 // findProxyOut: the function of iobroker that sends CLines with Plain set on
 // Broker.och.
 func findProxyOut(p *Prog) *ssa.Function {
-	och := p.Field(iobPkg, "Broker", "och")
+	och := brokerChan(p, "CLine")
 	if nil == och {
 		return nil
 	}
@@ -369,4 +369,38 @@ func localStructField(base ssa.Value, f int, depth int) ssa.Value {
 		return nil
 	}
 	return cands[0]
+}
+
+// brokerChan returns the Broker's channel field (at any depth) whose element
+// type is named elem ("string" for the operator's input lines, "CLine" for
+// the operator's output), whatever the field is called.
+func brokerChan(p *Prog, elem string) *types.Var {
+	pk := p.Pkg(iobPkg)
+	if nil == pk {
+		return nil
+	}
+	tn, ok := pk.Types.Scope().Lookup("Broker").(*types.TypeName)
+	if !ok {
+		return nil
+	}
+	var out *types.Var
+	n := 0
+	for _, l := range brokerLeaves(tn.Type(), "b", nil, 0) {
+		ch, ok := l.Type.Underlying().(*types.Chan)
+		if !ok {
+			continue
+		}
+		name := ch.Elem().String()
+		if nn := namedOf(ch.Elem()); nil != nn {
+			name = nn.Obj().Name()
+		}
+		if name == elem {
+			out = l.Var
+			n++
+		}
+	}
+	if 1 != n {
+		return nil
+	}
+	return out
 }
